@@ -79,7 +79,7 @@ def classify(run, idx):
         return "plain-frame"
     c, cn = varint(head[n:n + L])
     if c is None:
-        return "claimed-varint-unterminated"
+        return "claimed-varint-overlong" if len(head[n:n + L]) >= 5 else "claimed-varint-unterminated"
     if c == 0:
         return "uncompressed>threshold" if L - cn > thr else "uncompressed<=threshold"
     if c < 0:
